@@ -436,6 +436,14 @@ theorem no_guarded_append_decides_file :
 theorem write_version_read_only_for_header :
     writeVersionReads.filter (fun r => r.2.2 == 9) = [] ∧ writeVersionReads.length = 2 := by decide +kernel
 
+/-- Every dynamic part spliced into an option-guarded comment template (format field, operand,
+    argument) is an identifier-like generated name, a statement name, a declaration printed without
+    continuation hints, or user text that the emitter first strips of TAB / FORM FEED and splits at
+    newlines; no literal template contains TAB / FF / CR: the line writer cannot fold such a comment
+    line and continue it outside the comment. -/
+theorem comment_text_parts_safe :
+    commentDynamicParts.filter (fun r => r.2.2 == 9) = [] := by decide +kernel
+
 /-- non-vacuity: the scan found guarded statements for each of the six options -/
 theorem guards_found :
     (List.range 6).all (fun o => guardedStmts.any (fun r => r.1 == o)) = true := by decide +kernel
